@@ -352,15 +352,22 @@ Definition push_converted (acc : list mapping * from_table) (sm : mapping) : res
   fs <- from_set (m_from sm) ;;
   Ok (fst acc ++ [sm], ft_add (snd acc) fs (length (fst acc))).
 
-(* fn convert *)
-Definition convert (f : fancy_layout) : res layout :=
+(* fn convert, up to the final check: both passes over the source mappings *)
+Definition convert_core (f : fancy_layout) : res (list mapping) :=
   let tbl := find_alias_mappings f in
   r1 <- fold_res (fun acc fm => sms <- convert_mapping tbl fm ;; fold_res push_converted sms acc) f ([], []) ;;
-  res2 <- fold_res (fun acc fm => adjust_repeats acc (snd r1) tbl fm) f (fst r1) ;;
+  fold_res (fun acc fm => adjust_repeats acc (snd r1) tbl fm) f (fst r1).
+
+(* "The mapper requires the keys of a trigger, and of an output, to be distinct." *)
+Definition reject_duplicates (res2 : list mapping) : res layout :=
   dup <- exists_res (fun sm =>
            d <- has_duplicate_key (m_from sm) ;;
            if d then Ok true else has_duplicate_key (m_to sm)) res2 ;;
   if dup then Err else Ok res2.
+
+(* fn convert *)
+Definition convert (f : fancy_layout) : res layout :=
+  res2 <- convert_core f ;; reject_duplicates res2.
 
 (* load_layout_from_file after serde_json::from_reader *)
 Definition load (j : json) : res layout := f <- parse_layout j ;; convert f.
